@@ -17,11 +17,12 @@ type patEl struct {
 }
 
 type locPat struct {
-	ghost string
-	base  string
-	elems []patEl
-	typ   types.Type
-	src   string
+	newobj bool // `newobjects`: every cell of every object allocated since the function was entered
+	ghost  string
+	base   string
+	elems  []patEl
+	typ    types.Type
+	src    string
 }
 
 func (e *Env) evalLoc(x Expr) *locPat {
@@ -78,6 +79,9 @@ func (e *Env) tryLoc(x Expr) *locPat {
 		}
 		return e.pointee(n.X)
 	case *EIdent:
+		if n.Name == "newobjects" {
+			return &locPat{newobj: true}
+		}
 		if cv, ok := e.capt[n.Name]; ok {
 			return &locPat{base: cv.addr, typ: cv.typ}
 		}
@@ -189,6 +193,10 @@ func (g *FnGen) coveredPrim(r string, pats []*locPat, sort string) string {
 		if p.ghost != "" {
 			continue
 		}
+		if p.newobj {
+			ds = append(ds, app(">=", app("rid", r), "next!0"))
+			continue
+		}
 		for _, pp := range g.primPaths(p.typ) {
 			if pp.sort == sort {
 				ds = append(ds, matchRef(r, p, pp.path))
@@ -202,6 +210,10 @@ func (g *FnGen) coveredTyped(a string, pats []*locPat, t types.Type) string {
 	var ds []string
 	for _, p := range pats {
 		if p.ghost != "" {
+			continue
+		}
+		if p.newobj {
+			ds = append(ds, app(">=", app("rid", a), "next!0"))
 			continue
 		}
 		for _, sp := range g.subPaths(p.typ) {
@@ -279,6 +291,10 @@ func (g *FnGen) checkFrameCond(s *State, a, guard string, t types.Type, what str
 func (g *FnGen) coveredArr(a string, pats []*locPat, t types.Type) string {
 	var ds []string
 	for _, p := range pats {
+		if p.newobj {
+			ds = append(ds, app(">=", app("rid", a), "next!0"))
+			continue
+		}
 		if p.ghost != "" || len(p.elems) != 1 || !p.elems[0].wild || !types.Identical(p.typ, t) {
 			continue
 		}
@@ -336,7 +352,9 @@ func (g *FnGen) checkCallFrame(s *State, fc *FuncContract, env *Env, site string
 				continue
 			}
 			sorts := map[string]bool{}
-			g.cellSorts(cp.typ, sorts)
+			if !cp.newobj {
+				g.cellSorts(cp.typ, sorts)
+			}
 			var cs []string
 			for k := range sorts {
 				local := "false"
@@ -366,7 +384,9 @@ func (g *FnGen) locsetSorts(fc *FuncContract, ct *callTarget, args []TVal, m Cla
 			ghosts[p.ghost] = true
 			continue
 		}
-		g.cellSorts(p.typ, heapSorts)
+		if !p.newobj {
+			g.cellSorts(p.typ, heapSorts)
+		}
 	}
 }
 
